@@ -656,6 +656,10 @@ class ExcludeRegionState(object):  # pylint: disable=too-many-instance-attribute
         if (isDebug):
             startPosition = Position(self.position)
 
+        # The position before the move is the physical tool position if this move enters a region
+        priorPosition = Position(self.position)
+        wasExcluding = self.excluding
+
         eAxis = self.position.E_AXIS
         priorE = eAxis.current
         if (extruderPosition is not None):
@@ -719,6 +723,11 @@ class ExcludeRegionState(object):  # pylint: disable=too-many-instance-attribute
                 "processLinearMoves: returnCommands=%s, endPosition=%s",
                 returnCommands, self.position
             )
+
+        if (self.excluding and not wasExcluding):
+            # The move that entered the excluded region was not executed, so the tool is still at
+            # the position it had before that move (which may differ in Z)
+            self.lastPosition = priorPosition
 
         if (not returnCommands):
             returnCommands = self.ignoreGcodeCommand()
